@@ -4,10 +4,13 @@ import (
 	"encoding/json"
 	"fmt"
 	"math/rand"
+	"os"
 	"path/filepath"
 	"sort"
 	"strings"
+	"runtime/pprof"
 	"sync"
+	"time"
 
 	"github.com/feichai0017/NoKV/pb"
 	myraft "github.com/feichai0017/NoKV/raft"
@@ -250,6 +253,19 @@ func runCluster(c *corr.Ctx) error {
 		return nil
 	}
 
+	if one := os.Getenv("VERIF_CLUSTER_ONE"); one != "" {
+		var sp runSpec
+		if _, err := fmt.Sscanf(one, "%d,%d,%s", &sp.Seed, &sp.Steps, &sp.Profile); err != nil {
+			return err
+		}
+		cs, _, err := clusterCase(c, sp, 0)
+		if err != nil {
+			return err
+		}
+		c.Emit(cs)
+		return nil
+	}
+
 	// pipeline unit cases
 	np := c.Scale(300, 6000)
 	for i := 0; i < np; i++ {
@@ -283,7 +299,24 @@ func runCluster(c *corr.Ctx) error {
 		go func(i int) {
 			defer wg.Done()
 			defer func() { <-sem }()
+			fin := make(chan struct{})
+			if os.Getenv("VERIF_CLUSTER_WATCH") != "" {
+				go func() {
+					select {
+					case <-fin:
+					case <-time.After(5 * time.Second):
+						fmt.Fprintf(os.Stderr, "STUCK run %d spec %+v\n", i, specs[i])
+						for k := 0; k < 3; k++ {
+							f, _ := os.Create(fmt.Sprintf("/verif/run/tmp/w-cluster/stuck-%d.txt", k))
+							pprof.Lookup("goroutine").WriteTo(f, 1)
+							f.Close()
+							time.Sleep(300 * time.Millisecond)
+						}
+					}
+				}()
+			}
 			cs, st, err := clusterCase(c, specs[i], i)
+			close(fin)
 			out[i] = res{cs, st, err}
 		}(i)
 	}
